@@ -426,6 +426,11 @@ func (s *shared) stageLevel(cases []*Case, k int) int {
 		t := buildTask(c, trace, false)
 		stageAllow := i%3 == 0
 		st := &scheduler.Stage{Name: "s", Task: t, AllowFailure: stageAllow}
+		if i%2 == 0 {
+			// as every stage built from a configuration file: stage-level variables, so that the
+			// stage executes a private copy of its task
+			st.Variables = variables.FromMap(map[string]string{".Stage.Name": "s"})
+		}
 		g, err := scheduler.NewExecutionGraph(st)
 		if err != nil {
 			core.Broken("graph: %v", err)
